@@ -8,8 +8,23 @@ the iterator API, the sf/ef windows and the token stack; `ssdriver c04` recomput
 propagate with the model's own definitions (lines diffed exactly), evaluates the verified checker alignOKB on what
 the C code returned and the hypotheses of the theorems (wfTokens, NoSkip) on the dumped data.  The relation to the
 first-pass scores is evaluated here on the implementation's numbers.
+
+Second observation point (Props/C04Json.lean, Model/AlignJson.lean): after every alignment request the harness also
+calls decoder_result_json(d, start, align_level) for align_level 1 and 2 and a spread of start offsets (zero,
+positive, negative, fractional, a %.3f tie, an hour, a day).  `json_oracle` below (Python json, exact Fractions)
+requires (1) the nested "w" lists to be exactly the entries of alignment_words/phones/states and of the child
+iterators in order (label, start frame, duration: |b - (start + f/frate)| <= 0.0005 + 1e-9), (2) children to partition
+their parent in time at the rendered precision, (3) every level to be contiguous from `start` to start + T/frate.
+The driver judges the same line with the JSON recogniser of C14 + JsonObs.obsOf (frames recovered in exact integer
+arithmetic, proved sound and unambiguous: C04_json_recoverStart_sound) + timeOKB; C04_json_time_iff says the affine
+map f -> start + f/frate preserves and reflects the partition/contiguity clauses, so those are the only numeric steps.
+
+Renormalisation (D28): the model's test is the repaired code's (Step.renormDue); C04_alignStep_never_renormalises
+proves it false in every frame for T <= 16 140; beyond that the branch is exercised against the real
+renormalize_hmms by hand-stepped passes started close to the threshold (`renormprobe`, Step.runWith).
 """
 import json
+from fractions import Fraction
 import vlib
 
 KEY_D12 = "default compallsen: per-frame normaliser differs between passes"
@@ -157,6 +172,144 @@ def gen_case(rng, i, tier, stats):
     return case
 
 
+# ---- the JSON observation point: decoder_result_json(d, start, align_level) --------------------------------------
+# positions of the utterance: zero, positive, negative, fractional (1/3, a %.3f tie, below the rendered precision),
+# large (an hour, a day).  |start| <= 1e5 so that the double rounding of start + frame/frate stays below EPS.
+JSON_STARTS = [0.0, 12.5, 0.37, 1.0 / 3.0, 0.0625, 0.001, 0.0004, 3600.0, 86399.99, 7.0, 59.9995, 100.0,
+               -3.25, -0.125, -1000.004, -0.01, 1234.5678]
+JSON_DEFAULT = [[2, (12.5).hex()], [1, (-3.25).hex()], [2, (0.0).hex()]]     # corpus cases recorded before this check
+# entry scores of the renormalisation probe: state_align_search_step renormalises when best_score < -533 725 184
+# (best_score - 0x300000 WORSE_THAN WORST_SCORE = -536 870 912) and best_score BETTER_THAN WORST_SCORE (D28)
+RENORM_STARTS = [-533725000, -533724000, -533720000, -533715000, -533700000]
+RENORM_DEFAULT = -533700000      # corpus cases recorded before the probe existed
+TOL = Fraction(1, 2000)          # half a unit of the %.3f rendering
+EPS = Fraction(1, 10 ** 9)       # slack for the double arithmetic of `utt_start + (double)start / frate`
+
+
+def gen_json(rng):
+    """(align_level, start) pairs requested after every alignment request of a case: always one state-level call with a
+    clearly non-zero start, one phone-level call, one more of either level"""
+    def st(nonzero):
+        if rng.chance(0.25):
+            x = rng.range(-400000, 9000000) / 1000.0 + rng.below(1000) / 1e6
+        else:
+            x = rng.choice(JSON_STARTS)
+        if nonzero and abs(x) < 1.0:
+            x = rng.choice([12.5, 3600.0, -3.25, 59.9995, 1234.5678])
+        return float(x).hex()
+    calls = [[2, st(True)], [1, st(False)], [rng.choice([1, 2]), st(False)]]
+    rng.shuffle(calls)
+    return calls
+
+
+def json_oracle(jl, hW, hP, hS, cw, cp, T, skip):
+    """the hierarchy clauses of C04 evaluated on one line returned by decoder_result_json (implementation-side oracle).
+    jl = words of the J line; hW/hP/hS = the flat iterator dump; cw/cp = children lists of the iterator dump.
+    Returns a list of violation texts."""
+    level, start, frate = int(jl[1]), Fraction(float.fromhex(jl[2])), int(jl[5])
+    bad = []
+    try:
+        top = json.loads(bytes.fromhex(jl[6]).decode("utf-8"), parse_float=Fraction, parse_int=Fraction)
+    except Exception as e:      # noqa
+        return [f"the returned line is not JSON ({e})"]
+    lvl2 = level >= 2
+
+    def entry(node, exp, what):
+        """node = JSON object, exp = iterator dump line (W/P/S words): name, start frame, duration"""
+        name, sf, du = exp[3], int(exp[4]), int(exp[5])
+        if not isinstance(node, dict) or not all(k in node for k in ("b", "d", "t")):
+            bad.append(f"{what}: not an entry object")
+            return
+        if node["t"] != name:
+            bad.append(f"{what}: label {node['t']!r}, the iterator API says {name!r}")
+        if abs(node["b"] - (start + Fraction(sf, frate))) > TOL + EPS:
+            bad.append(f"{what} ({name}): begin time {float(node['b']):.3f} is not start + {sf}/{frate} = "
+                       f"{float(start + Fraction(sf, frate)):.6f} at the rendered precision")
+        if abs(node["d"] - Fraction(du, frate)) > TOL + EPS:
+            bad.append(f"{what} ({name}): duration {float(node['d']):.3f} is not {du}/{frate}")
+
+    def tiles(kids, b0, b1, what):
+        """children partition [b0, b1) in time at the rendered precision (every printed number is within TOL of the
+        exact time, so two renderings of the same instant differ by at most 2 TOL, an end b+d by at most 2 TOL more)"""
+        if not kids:
+            bad.append(f"{what}: no children")
+            return
+        if abs(kids[0]["b"] - b0) > 2 * TOL + 2 * EPS:
+            bad.append(f"{what}: children begin at {float(kids[0]['b']):.3f}, the parent at {float(b0):.3f}")
+        for x, y in zip(kids, kids[1:]):
+            if abs(y["b"] - (x["b"] + x["d"])) > 3 * TOL + 3 * EPS:
+                bad.append(f"{what}: {x['t']}@{float(x['b']):.3f}+{float(x['d']):.3f} is not followed at once by "
+                           f"{y['t']}@{float(y['b']):.3f}")
+        for x in kids:
+            if not x["d"] > 0:
+                bad.append(f"{what}: {x['t']} has duration {float(x['d']):.3f}")
+        end = kids[-1]["b"] + kids[-1]["d"]
+        if abs(end - b1) > 4 * TOL + 4 * EPS:
+            bad.append(f"{what}: children end at {float(end):.3f}, the parent at {float(b1):.3f}")
+
+    ws = top.get("w") if isinstance(top, dict) else None
+    if not isinstance(ws, list):
+        return ["no word list"]
+    if abs(top.get("b", Fraction(10 ** 9)) - start) > TOL + EPS:
+        bad.append(f"the hypothesis begins at {float(top.get('b', 0)):.3f}, start is {float(start):.6f}")
+    # (1) exactly the entries of the iterators, in order, at every level
+    if len(ws) != len(hW):
+        bad.append(f"{len(ws)} word entries, alignment_words has {len(hW)}")
+        return bad
+    allp, alls = [], []
+    ok_shape = True
+    for wi, (wn, we) in enumerate(zip(ws, hW)):
+        entry(wn, we, f"word {wi}")
+        ps = wn.get("w") if isinstance(wn, dict) else None
+        pidx = cw.get(int(we[1]), [])
+        if not isinstance(ps, list) or len(ps) != len(pidx):
+            bad.append(f"word {wi} ({we[3]}): {len(ps) if isinstance(ps, list) else 'no'} phone entries, the child "
+                       f"iterator gives {len(pidx)}")
+            ok_shape = False
+            continue
+        for pn, pi in zip(ps, pidx):
+            pe = hP[pi] if pi < len(hP) else None
+            if pe is None:
+                ok_shape = False
+                continue
+            entry(pn, pe, f"word {wi} phone {pi}")
+            allp.append(pn)
+            ss = pn.get("w") if isinstance(pn, dict) else None
+            if not lvl2:
+                if ss is not None:
+                    bad.append(f"phone {pi}: state list although align_level = {level}")
+                continue
+            sidx = cp.get(pi, [])
+            if not isinstance(ss, list) or len(ss) != len(sidx):
+                bad.append(f"phone {pi} ({pe[3]}): {len(ss) if isinstance(ss, list) else 'no'} state entries, the child "
+                           f"iterator gives {len(sidx)}")
+                ok_shape = False
+                continue
+            for sn, si in zip(ss, sidx):
+                se = hS[si] if si < len(hS) else None
+                if se is None:
+                    ok_shape = False
+                    continue
+                entry(sn, se, f"phone {pi} state {si}")
+                alls.append(sn)
+    if not ok_shape or skip or any("not an entry object" in b for b in bad):
+        return bad
+    # (2) children partition their parent in time, (3) every level is contiguous from `start`
+    uend = start + Fraction(T, frate)
+    for wn in ws:
+        tiles(wn["w"], wn["b"], wn["b"] + wn["d"], f"word {wn['t']}@{float(wn['b']):.3f}")
+        if lvl2:
+            for pn in wn["w"]:
+                tiles(pn["w"], pn["b"], pn["b"] + pn["d"], f"{wn['t']}@{float(wn['b']):.3f}/{pn['t']}@{float(pn['b']):.3f}")
+    # the level-wise ends are compared with the exact end start + T/frate: one rendering of an end (b + d)
+    for lv, name in ((ws, "words"), (allp, "phones")) + (((alls, "states"),) if lvl2 else ()):
+        if not lv:
+            bad.append(f"level {name} is empty")
+            continue
+        tiles(lv, start, uend, f"level {name}")
+    return bad
+
+
 def case_text(case):
     ls = [f"case {case['id']}"]
     for k, v in sorted(case["cfg"].items()):
@@ -182,6 +335,13 @@ def case_text(case):
     ls.append(f"early {case.get('early', 0)}")
     ls.append(f"preend {case.get('preend', 0)}")
     ls.append(f"dumpsen {case.get('dumpsen', 0)}")
+    if case.get("dumpsen", 0):
+        rp = case.get("renormprobe", RENORM_DEFAULT)
+        if rp:
+            ls.append(f"renormprobe {rp}")
+    js = case.get("json", JSON_DEFAULT)
+    if js:
+        ls.append("json " + " ".join(f"{lv}:{st}" for lv, st in js))
     ls.append("run")
     return "\n".join(ls) + "\n"
 
@@ -326,6 +486,14 @@ def judge_block(case, hb, db, ci_names, stats):
             probs.append({"what": "a second call of decoder_alignment handed out an alignment after the first call failed",
                           "detail": {"tag": tag, "words": hW[:4]}, "impl": True, "key": None, "tie": False})
         if not hW:
+            for jl in (l.split() for l in hb if l.startswith("J ")):
+                stats["json_calls"] += 1
+                stats["json_null"] += int(jl[6] == "null")
+                if jl[6] != "null":
+                    stats["json_bad"] += 1
+                    probs.append({"what": "decoder_result_json returned a line although decoder_alignment returned NULL",
+                                  "detail": {"call": f"decoder_result_json(d, {float.fromhex(jl[2])!r}, {jl[1]})", "tag": tag},
+                                  "impl": True, "key": None, "tie": False})
             return probs
     else:
         stats["alignments"] += 1
@@ -410,6 +578,21 @@ def judge_block(case, hb, db, ci_names, stats):
                     probs.append({"what": "step model (constrained Viterbi over the dumped senone scores) does not reproduce the "
                                           "token stack of the real state_align_search_step", "detail": stp, "impl": False,
                                   "key": None, "tie": True})
+                if sd.get("manual_eq_decoder") != "1":
+                    probs.append({"what": "the hand-stepped second pass of the harness (whose senone scores the step model is run "
+                                          "on) does not produce the token stack of decoder_alignment's own second pass",
+                                  "detail": stp, "impl": False, "key": None, "tie": True})
+        rst = next((l for l in db if l.startswith("RSTEP ")), None)
+        if rst:
+            rd = kv(rst)
+            if rd.get("na") != "1":
+                stats["renorm_probe_blocks"] += 1
+                stats["renorm_probe_fired"] += int(rd.get("renorm") == "1")
+                stats["renorm_probe_fired_and_alive"] += int(rd.get("renorm") == "1" and rd.get("alive") == "1")
+                if rd.get("eq") != "1":
+                    probs.append({"what": "renormalisation probe: the step model started at the same entry score does not "
+                                          "reproduce the token stack of the real state_align_search_step (renormalize_hmms)",
+                                  "detail": rst, "impl": False, "key": None, "tie": True})
         T = int(hd.get("nframe", 0))
         stats["frames"].append(T)
         stats["states"].append(len(hS))
@@ -423,6 +606,51 @@ def judge_block(case, hb, db, ci_names, stats):
                                   "alignment search (a word score that omits a state)",
                           "detail": {"sum_of_word_scores": tot, "out_score": int(fin[2]), "tag": tag,
                                      "first_state": hS[0] if hS else None}, "impl": True, "key": None, "tie": False})
+    # ---- the hierarchy as reported by decoder_result_json(d, start, 1|2)
+    jls = [l.split() for l in hb if l.startswith("J ")]
+    jss = [l for l in (db or []) if l.startswith("JS ")]
+    cwm = {int(l.split()[1]): [int(x) for x in l.split()[2:]] for l in hb if l.startswith("CW ")}
+    cpm = {int(l.split()[1]): [int(x) for x in l.split()[2:]] for l in hb if l.startswith("CP ")}
+    Tfp = (fpw[-1][3] + 1) if fpw else 0
+    for k, jl in enumerate(jls):
+        stats["json_calls"] += 1
+        lvl, st = int(jl[1]), float.fromhex(jl[2])
+        jd = kv(jss[k]) if k < len(jss) else {}
+        desc = {"call": f"decoder_result_json(d, {st!r}, {lvl})", "tag": tag}
+        if jl[6] == "null":
+            stats["json_null"] += 1
+            if a.startswith("A ok"):
+                stats["json_bad"] += 1
+                probs.append({"what": "decoder_result_json returned NULL although decoder_alignment returned an alignment",
+                              "detail": desc, "impl": True, "key": None, "tie": False})
+            continue
+        if not a.startswith("A ok"):
+            stats["json_bad"] += 1
+            probs.append({"what": "decoder_result_json returned a line although decoder_alignment returned NULL",
+                          "detail": desc, "impl": True, "key": None, "tie": False})
+            continue
+        stats["json_lines"] += 1
+        stats["json_level"][str(lvl)] = stats["json_level"].get(str(lvl), 0) + 1
+        sk = "zero" if st == 0 else "negative" if st < 0 else "below 1 s" if st < 1 else "1 s .. 1 h" if st < 3600 else ">= 1 h"
+        stats["json_start"][sk] = stats["json_start"].get(sk, 0) + 1
+        if lvl >= 2 and abs(st) >= 1:
+            stats["json_state_level_nonzero_start"] += 1
+        jb = json_oracle(jl, hW, hP, hS, cwm, cpm, Tfp, skip)
+        if jb:
+            stats["json_bad"] += 1
+            probs.append({"what": "the hierarchy reported by decoder_result_json violates C04: " + jb[0],
+                          "detail": {**desc, "violations": jb[:8], "n_violations": len(jb)}, "impl": True, "key": None,
+                          "tie": False})
+        # the same line judged by the model-side reader (exact integer frame recovery + Contig checker)
+        need = ["parse", "clock", "tree", "same", "names"] + ([] if skip else ["timeOK"])
+        lean_ok = jd.get("null") == "0" and all(jd.get(x) == "1" for x in need) and jd.get("top") == "0"
+        if lean_ok:
+            stats["json_lean_ok"] += 1
+        if lean_ok != (not jb):
+            stats["json_bad"] += 1
+            probs.append({"what": "the two readers of the JSON hierarchy disagree (Python oracle vs JsonObs.obsOf/timeOKB "
+                                  "of the driver)", "detail": {**desc, "driver": jss[k] if k < len(jss) else None,
+                                                                "python": jb[:3]}, "impl": False, "key": None, "tie": True})
     # ---- populate branches exercised
     for w in hW:
         d = dic.get(int(w[2]))
@@ -554,7 +782,10 @@ def new_stats():
             "fp_with_nondict_segments": 0, "frames": [], "states": [], "words": [], "pron_len": {}, "filler_words": 0,
             "alt_pron_words": 0, "score_clause_exact_words": 0, "score_clause_default_words": 0, "score_d12_blocks": 0,
             "synth": {}, "synth_results_with_skipped_states": 0, "step_model_blocks": 0, "step_model_frames": 0,
-            "step_manual_pass_equals_decoder_pass": 0, "step_model_not_applicable": 0, "score_xword_context": 0, "score_first_pass_pruned": 0, "crashes": 0, "grammar_rejected": 0}
+            "step_manual_pass_equals_decoder_pass": 0, "step_model_not_applicable": 0, "score_xword_context": 0, "score_first_pass_pruned": 0, "crashes": 0, "grammar_rejected": 0,
+            "renorm_probe_blocks": 0, "renorm_probe_fired": 0, "renorm_probe_fired_and_alive": 0,
+            "json_calls": 0, "json_null": 0, "json_lines": 0, "json_level": {}, "json_start": {},
+            "json_state_level_nonzero_start": 0, "json_lean_ok": 0, "json_bad": 0}
 
 
 def evaluate(c, binp, cases, stats, label):
@@ -676,8 +907,14 @@ def check(c):
                   "the senone scorer (acmod_score, floating point GMM code) and the first-pass search are not modelled: "
                   "their outputs (first-pass segmentation, token stack) are inputs of the model",
                   "clang ASan/UBSan as observer of memory errors in the aligner"]
-    c.assumptions += ["utterances far from the score renormalisation threshold of state_align_search_step "
-                      "(best_score - 0x300000 < WORST_SCORE: > 16 000 frames of worst-case scores); renormalisation is not modelled",
+    c.assumptions += ["theorems about the step model (wfTokens, hierarchy, optimality) are for second passes of at most 16 140 "
+                      "frames (T * 33022 <= 533 000 000, evaluated per request as `tbound`): for those the renormalisation test "
+                      "of state_align_search_step (modelled with the D28 conjunct, Step.renormDue) is PROVED never to fire "
+                      "(C04_alignStep_never_renormalises); for longer passes the branch is modelled and tied to the real "
+                      "renormalize_hmms by the renormalisation probe, but no theorem covers such runs",
+                      "JSON observation: |start| <= 1e5 s (the double rounding of start + frame/frate stays below the 1e-9 slack "
+                      "of the tolerance 0.0005 + 1e-9) and frame rate <= 500 (a rendered time then determines its frame: "
+                      "`clockOK`, evaluated per call); the frame rate is the model's 100 in every generated case",
                       "alignments of fewer than 65 535 entries per level (uint16 counters of alignment_vector_t)",
                       "dictionary pronunciations are non-empty (D4) and n_emit_state > 0 (asserted by hmm_context_init)",
                       "buffering modes that allow a second pass: growing feature buffer (default, full_utt, no_search) or a "
@@ -703,6 +940,10 @@ def check(c):
                 allok = False
     ncases = 36 if c.tier == "quick" else 700
     cases = [gen_case(c.rng, i, c.tier, stats) for i in range(ncases)]
+    jrng = vlib.Rng(c.seed * 1000003 + 404)      # own stream: the generated alignment cases stay what they were
+    for cs in cases:
+        cs["json"] = gen_json(jrng)
+        cs["renormprobe"] = jrng.choice(RENORM_STARTS) if cs.get("dumpsen") and not cs.get("tmatskip") else 0
     # a few cases also dump the senone scores of a hand-stepped second pass (step model, see driver)
     for cs in cases[:3]:
         c.samples.append({k: cs[k] for k in ("gram", "audio", "mode", "chunk", "partials", "cfg")})
@@ -737,6 +978,19 @@ def check(c):
     stats["synth_cases"] = nsyn
     c.oblige("every generated alignment request: AlignOK holds on the API output, NULL only when no word / no rewind, "
              "score clause (compallsen=yes exact)", allok)
+    c.oblige("JSON observation point: every line decoder_result_json(d, start, 1|2) returned after an alignment request lists "
+             "exactly the entries of the iterators (label, start frame, duration within 0.0005 + 1e-9 of start + f/frate), "
+             "children partition their parents in time, every level is contiguous from start (Python oracle AND "
+             "JsonObs.obsOf/timeOKB of the driver agree); NULL exactly when decoder_alignment returns NULL; at least one "
+             "state-level call with |start| >= 1 s was judged",
+             stats["json_bad"] == 0 and (stats["json_lines"] == stats["json_lean_ok"]) and
+             (stats["alignments"] == 0 or stats["json_state_level_nonzero_start"] > 0),
+             {k: stats[k] for k in ("json_calls", "json_lines", "json_lean_ok", "json_state_level_nonzero_start", "json_bad")})
+    c.oblige("renormalisation branch exercised: in at least one hand-stepped pass started close to the threshold the real "
+             "state_align_search_step renormalised (model flag renorm=1) and the step model reproduced its token stack "
+             "frame for frame (only required when >= 5 probe passes ran)",
+             stats["renorm_probe_blocks"] < 5 or stats["renorm_probe_fired"] > 0,
+             {k: stats[k] for k in ("renorm_probe_blocks", "renorm_probe_fired", "renorm_probe_fired_and_alive")})
     c.oblige("correspondence: populate + windows + backtrace + propagate of the model = real code on every dumped token stack; "
              "WFTokens and NoSkip hold on the dumped data; the step model reproduces the token stack from the dumped senone scores",
              allok)
@@ -746,8 +1000,9 @@ def check(c):
         "children_are_blocks, boundaries_preserved, scores_add_up over the model of alignment_populate / "
         "state_align_search_finish / alignment_propagate / the child iterators, under the executable hypothesis wfTokens; "
         "alignOKB = AlignOK; alignStep_WFTokens (the token stack of the constrained Viterbi model satisfies wfTokens whenever "
-        "the final score is alive: NoSkip, C-type ranges, ef non-decreasing, T < 16 140; renormalisation branch included), "
-        "hence model_run_hierarchy without a token-stack hypothesis; word_score_is_acoustic_part_partial (the final "
+        "the final score is alive: NoSkip, C-type ranges, ef non-decreasing, T <= 16 140), alignStep_never_renormalises "
+        "(the D28-repaired renormalisation test is false in every frame of such a run), "
+        "hence model_run_hierarchy without a token-stack hypothesis; alignScore_is_best_path (the final "
         "out-score = max over admissible window-constrained monotone paths of the summed senone+transition scores) and "
         "word_score_is_best_segment (each aligned word score = max over path segments across that word's frames).  Tie: every alignment the real decoder returned in this run was (1) judged by alignOKB "
         "on the iterator-API output, (2) recomputed by the model from the dumped first-pass segmentation, dict2pid tables "
@@ -755,7 +1010,18 @@ def check(c):
         "of the requests (4) recomputed frame by frame by the step model from the senone scores a hand-stepped second pass "
         "saw.  Generated token stacks exercise the failing and skipping branches of the backtrace.  The relation to the "
         "first-pass scores is evaluated on the implementation only: exact under compallsen=yes (equality for every word "
-        "whose cross-word triphones agree in both passes), recorded as known findings otherwise.")
+        "whose cross-word triphones agree in both passes), recorded as known findings otherwise.  "
+        "The window arrays wfTokens is evaluated on are the C search's sf/ef; the model's windows (sfOf/efOf of the "
+        "populated alignment, the ones the theorems use) are printed by the driver and diffed against them in every "
+        "request (lines SF/EF), both bundled models have 3 emitting states.  The hand-stepped second pass whose senone "
+        "scores feed the step model must reproduce the token stack of decoder_alignment's own pass (obligation).  "
+        "JSON observation point: json_* counters; C04_json_time_iff / C04_json_hierarchy_in_time (the affine map "
+        "frame -> start + frame/frate preserves and reflects the partition and contiguity clauses), "
+        "C04_json_recoverStart_sound / recoverDur_sound (the integer frame recovery from the %.3f text is sound and "
+        "unambiguous).  Not modelled: the decoder_alignment wrapper itself (filter of non-dictionary segments, "
+        "T = last first-pass end frame + 1 (D29), the reuse shortcut, acmod_rewind) - its effects are observed: NULL only "
+        "without words/rewind, second call returns the same object or an equal alignment, later utterances, and the JSON "
+        "calls (which call decoder_alignment again) must report the dumped alignment.")
     c.cov.update({"evaluations": stats["requests"], "distinct_nontrivial": stats["alignments"],
                   "rule": "alignment requests (final and partial) on generated (grammar, clip, mode, chunking, configuration) "
                           "cases; non-trivial = decoder_alignment returned an alignment (>= 1 word) whose token stack was dumped, "
